@@ -366,6 +366,14 @@ fn gen_reader(r: &mut Rng) -> Case {
         let len = if wmax > 100 { boundary_len(r, cap, 2) } else { boundary_len(r, cap, 6).min(40) };
         let payload = rand_bytes(r, len);
         let msg = writer_stream(*r.pick(&[1u8, 3, 255]), wmax, &payload);
+        if r.chance(1, 6) && !msg.is_empty() {
+            // the connection ends before the message is complete: the reader must report an error, never end-of-data
+            let k = if r.chance(1, 3) { *r.pick(&[0usize, 1, 5, 6, 11, 12]) % msg.len() } else { r.below(msg.len() as u64) as usize };
+            let pre_n = if r.chance(1, 3) { r.below(k as u64 + 1) as usize } else { 0 };
+            let sched = rand_sched(r, 6, 12, false);
+            let c = RCase { asyn, max: rmax, stream: msg[pre_n..k].to_vec(), pre: msg[..pre_n].to_vec(), sched, dflt, sizes };
+            return truncated_reader_case(&c, &payload);
+        }
         let following = match r.below(4) {
             0 => vec![],
             1 => writer_stream(5, wmax.min(30), &rand_bytes(r, 5)),
@@ -407,6 +415,19 @@ fn gen_reader(r: &mut Rng) -> Case {
     let sched = rand_sched(r, 6, 12, faults);
     let c = RCase { asyn, max, stream, pre: vec![], sched, dflt, sizes };
     reader_case(&c, None, if faults { "reader-malformed-faults" } else { "reader-malformed" })
+}
+
+fn truncated_reader_case(c: &RCase, payload: &[u8]) -> Case {
+    let mut case = reader_case(c, None, "reader-truncated");
+    let o = run_reader(c);
+    let which = if c.asyn { "async" } else { "sync" };
+    let mut got = vec![];
+    for r in &o.reads { if let Ok(b) = r { got.extend_from_slice(b); } }
+    case.oracle = if o.panicked { Oracle::Fails { class: "ReaderPanic".into(), detail: format!("{} reader panicked on a truncated stream", which) } }
+        else if !matches!(o.reads.last(), Some(Err(_))) { Oracle::Fails { class: "ReaderEarlyEndUnreported".into(), detail: format!("{} reader: the stream ended after {} bytes, before the last-fragment PDU was complete, and the reader reported end-of-data after {} of {} payload bytes", which, c.pre.len() + c.stream.len(), got.len(), payload.len()) } }
+        else if !payload.starts_with(&got) { Oracle::Fails { class: "ReaderPayload".into(), detail: format!("{} reader returned bytes that are not a prefix of the payload", which) } }
+        else { Oracle::Holds };
+    case
 }
 
 fn reader_case_with_pre(c: &RCase, payload: &[u8], following: &[u8]) -> Case {
